@@ -1,6 +1,7 @@
 import Lean.Data.Json
 import Physt.Model.Hist1D
 import Physt.Model.FloatInst
+import Physt.Model.Json
 /-!
 # Line-protocol driver: one JSON case per line in, one JSON result per line out.
 Numbers are exact rationals written as strings `"n/d"` or `"n"`; NaN is `null`.
@@ -305,6 +306,18 @@ def step1 (fo : FloatOps) (fuel : Nat) (s : St) (op : Json) : E (St × Json) := 
   | "copy" =>
     let h ← s.get (← reg "h")
     pure (s.set (← reg "out") (h.copy (getBoolD op "with_freq" true)), Json.str "ok")
+  | "roundtrip" =>
+    -- `parse_json(h.to_json())`: the document written, and the object read back
+    let h ← s.get (← reg "h")
+    let d := h.toDict fo
+    let jb : Json := match d.binning with
+      | .static b => Json.mkObj [("t", "static"), ("bins", jBins b)]
+      | .fixed a c w sh t => Json.mkObj [("t", "fixed"), ("adaptive", a), ("count", Json.num c), ("w", jRat w),
+          ("shift", jRat sh), ("tmin", Json.num t)]
+    let doc := Json.mkObj [("histogram_type", d.histogramType), ("binning", jb), ("freq", jRats d.freq),
+      ("dtype", d.dtype.name), ("err2", jRats d.err2), ("missed", Json.arr (d.missed.map jNRat).toArray),
+      ("missed_keep", d.missedKeep)]
+    pure (s.set (← reg "out") (H1.fromDict d), doc)
   | _ => throw s!"unknown op {name}"
 
 def runHist1 (fo : FloatOps) (case : Json) : E Json := do
